@@ -20,6 +20,7 @@ var dnaModels = []string{"JCModel", "K2PModel", "F81Model", "F84Model", "TN93Mod
 func runC07(c *Ctx) {
 	L := c.L
 	c.checkNaNClamp()
+	c.checkMutationClasses("mutation-classes")
 	c.checkSymmetricStores(c.fn("distance/dna", "", "DistMatrix"), "outmatrix")
 	c.checkSubstitutionBranch()
 	c.checkIupacTables()
